@@ -1,5 +1,5 @@
 import SwcVerif.Gen.AlgoDsu
-import SwcVerif.Model.AlgoRun
+import SwcVerif.Model.AlgoRunDsu
 import SwcVerif.Refine.PyLemmas
 import SwcVerif.Proofs.Dsu
 /-! Refinement: the definitions GENERATED from `swcgeom/utils/dsu.py` (`Gen.Algo.dsu_*`, regenerated from the
